@@ -153,7 +153,18 @@ func c06Values(c *fw.Case, n int) {
 		// lenient base64 decoder skips) must be refused
 		for _, code := range []uint64{18, 19} {
 			hh := hashes[code]
-			variants := map[string]string{"embedded-newline": hh[:len(hh)/2] + "\n" + hh[len(hh)/2:], "trailing-crlf": hh + "\r\n", "leading-newline": "\n" + hh}
+			swapped := []byte(hh)
+			for i := len(swapped) - 2; i > 4; i-- {
+				if swapped[i] >= 'a' && swapped[i] <= 'z' {
+					swapped[i] -= 32
+					break
+				}
+				if swapped[i] >= 'A' && swapped[i] <= 'Z' {
+					swapped[i] += 32
+					break
+				}
+			}
+			variants := map[string]string{"letter-case-swapped": string(swapped), "embedded-newline": hh[:len(hh)/2] + "\n" + hh[len(hh)/2:], "trailing-crlf": hh + "\r\n", "leading-newline": "\n" + hh}
 			if len(hh)%4 != 0 {
 				const alpha = "ABCDEFGHIJKLMNOPQRSTUVWXYZabcdefghijklmnopqrstuvwxyz0123456789-_"
 				spare := uint(2)
